@@ -18,10 +18,27 @@ type gen struct {
 func newGen(prop string, seed uint64) *gen {
 	g := &gen{r: rt.NewRng(seed, rt.HashStr(prop)), sc: &Scenario{Prop: prop, Seed: seed}}
 	g.sc.Cfg = RunCfg{
-		MinLatNs: 100_000,
-		MaxLatNs: []int64{300_000, 2_000_000, 10_000_000, 50_000_000}[g.r.Intn(4)],
+		MinLatNs:  100_000,
+		MaxLatNs:  []int64{300_000, 2_000_000, 10_000_000, 50_000_000}[g.r.Intn(4)],
 		PollMinNs: 20_000, PollMaxNs: 400_000,
 		ThresholdRate: 0.8,
+	}
+	// swarm: configuration knobs that only add triggers / thresholds to answers must never
+	// matter for any property; vary them per run
+	if g.r.Chance(300) {
+		g.sc.Cfg.VolumeLimit = int32(g.r.Range(1, 100000))
+	}
+	if g.r.Chance(300) {
+		g.sc.Cfg.VolumeLimitPDU = int32(g.r.Range(1, 100000))
+	}
+	if g.r.Chance(300) {
+		g.sc.Cfg.QuotaValidity = int32(g.r.Range(1, 86400))
+	}
+	if g.r.Chance(300) {
+		g.sc.Cfg.ThresholdRate = []float32{0, 0.1, 0.5, 1}[g.r.Intn(4)]
+	}
+	if g.r.Chance(250) {
+		g.sc.Cfg.DBDelayMaxNs = []int64{10_000, 1_000_000, 20_000_000}[g.r.Intn(3)]
 	}
 	return g
 }
@@ -308,19 +325,30 @@ func GenC02(seed uint64) *Scenario {
 	subs := g.accounts(nSub, 2, func() int64 { return g.r.Range(1_000_000_000, 3_000_000_000) })
 	long := g.r.Chance(80) // histories fat enough to cross the 64 KiB split
 	maxSess := 1 + g.r.Intn(3)
+	if long {
+		// one subscriber with two or three sessions, so that several sessions (not only the
+		// youngest) cross the split
+		nSub = 1
+		g.sc.Accounts = nil
+		subs = g.accounts(nSub, 2, func() int64 { return g.r.Range(1_000_000_000, 3_000_000_000) })
+		maxSess = 2 + g.r.Intn(2)
+	}
 	allowPartial := g.r.Chance(400)
 	allowCreateUsage := g.r.Chance(300)
 	g.sc.Shape = fmt.Sprintf("subs=%d long=%v maxSess=%d partial=%v createUsage=%v tz=%d", nSub, long, maxSess, allowPartial, allowCreateUsage, g.sc.Cfg.TZOffsetSec)
 	var sess []*sessState
 	for s := 1; s <= nSub; s++ {
 		n := 1 + g.r.Intn(maxSess)
+		if long {
+			n = maxSess
+		}
 		for k := 0; k < n; k++ {
 			sess = append(sess, &sessState{name: fmt.Sprintf("s%d_%d", s, k), supi: supiN(s), rgs: subs[supiN(s)]})
 		}
 	}
 	nOps := 4 + g.r.Intn(30)
 	if long {
-		nOps = 30 + g.r.Intn(30)
+		nOps = 30 + g.r.Intn(25)
 	}
 	var ops []Op
 	// start at a drawn simulated instant so that dates/hours vary
@@ -339,13 +367,13 @@ func GenC02(seed uint64) *Scenario {
 			if g.r.Chance(300) {
 				ops = append(ops, Op{ID: g.id(), Kind: "sleep", SleepNs: g.r.Range(1, 7200) * 1_000_000_000})
 			}
-		case s.live && g.r.Chance(60):
+		case s.live && g.r.Chance(60) && !(long && len(ops) < nOps-6):
 			ops = append(ops, g.cdrUsageOp("release", s, 1+g.r.Intn(3), true, false))
 			s.live = false
 		case s.live:
 			n := 1 + g.r.Intn(4)
 			if long {
-				n = 40 + g.r.Intn(120)
+				n = 100 + g.r.Intn(250)
 			}
 			ops = append(ops, g.cdrUsageOp("update", s, n, false, allowPartial && g.r.Chance(150)))
 		default:
@@ -439,8 +467,42 @@ func GenC03(seed uint64) *Scenario {
 
 // ---------------------------------------------------------------- C12
 
+// genC12Race: a release (carrying online usage, so it holds the subscriber while it talks
+// to the rating and account servers) races with updates / a second release of the same session.
+func genC12Race(g *gen) *Scenario {
+	g.sc.Cfg.Concurrent = true
+	g.sc.Cfg.YieldPermille = []int{0, 30, 200}[g.r.Intn(3)]
+	g.sc.Cfg.YieldMaxNs = []int64{1000, 200_000, 5_000_000}[g.r.Intn(3)]
+	supi := supiN(1)
+	g.sc.Accounts = []Account{{Supi: supi, RG: 1, Quota: g.r.Range(100_000, 5_000_000), UnitCost: g.pickCost()}}
+	pro := []Op{{ID: g.id(), Kind: "create", Supi: supi, Sess: "s", Consumer: "smf", ChargingID: 9, NotifyURI: "http://smf.sim/notify/" + supi},
+		{ID: g.id(), Kind: "update", Supi: supi, Sess: "s", Units: []Unit{{RG: 1, Req: 1000, Containers: []Container{g.online(0)}}}}}
+	g.sc.Tasks = []Task{{ID: 0, Ops: pro}}
+	t0 := int64(200_000_000)
+	span := 4 * g.sc.Cfg.MaxLatNs * 8
+	g.sc.Tasks = append(g.sc.Tasks, Task{ID: 1, StartNs: t0 + g.r.Range(0, span/4), Ops: []Op{{ID: g.id(), Kind: "release", Supi: supi, Sess: "s", Final: true,
+		Units: []Unit{{RG: 1, Req: 0, Containers: []Container{g.online(500)}}}}}})
+	n := 1 + g.r.Intn(3)
+	for i := 0; i < n; i++ {
+		op := Op{ID: g.id(), Kind: "update", Supi: supi, Sess: "s", Role: "may-reject",
+			Units: []Unit{{RG: 1, Req: 100, Containers: []Container{g.offline()}}}}
+		if g.r.Chance(300) {
+			op.Units[0].Containers = []Container{g.online(0)}
+		}
+		if g.r.Chance(100) {
+			op = Op{ID: g.id(), Kind: "release", Supi: supi, Sess: "s", Final: true, Role: "may-reject"}
+		}
+		g.sc.Tasks = append(g.sc.Tasks, Task{ID: 2 + i, StartNs: t0 + g.r.Range(0, span), Ops: []Op{op}})
+	}
+	g.sc.Shape = fmt.Sprintf("race-release racers=%d yield=%d", n, g.sc.Cfg.YieldPermille)
+	return g.sc
+}
+
 func GenC12(seed uint64) *Scenario {
 	g := newGen("C12", seed)
+	if g.r.Chance(150) {
+		return genC12Race(g)
+	}
 	g.sc.Cfg.Snapshots = true
 	g.sc.Cfg.SinkMode = []string{"ok", "ok", "500", "error"}[g.r.Intn(4)]
 	g.sc.Cfg.SinkDelayNs = []int64{0, 1_000_000, 200_000_000, 3_000_000_000}[g.r.Intn(4)]
@@ -482,8 +544,12 @@ func GenC12(seed uint64) *Scenario {
 		}
 		switch {
 		case !s.created:
+			uri := "http://smf.sim/notify/" + s.supi
+			if g.r.Chance(500) {
+				uri = fmt.Sprintf("http://smf.sim/notify/%s/%s", s.supi, s.name) // a new consumer registers its own URI
+			}
 			ops = append(ops, Op{ID: g.id(), Kind: "create", Supi: s.supi, Sess: s.name, Consumer: "smf" + s.name, ChargingID: int32(g.r.Range(1, 99)),
-				NotifyURI: "http://smf.sim/notify/" + s.supi})
+				NotifyURI: uri})
 			s.created, s.live = true, true
 		case s.live && g.r.Chance(100):
 			ops = append(ops, g.usageOp("release", s, true, false, true, false))
